@@ -10,6 +10,13 @@ COMMON_NOTE = ('Trusted base: z3 4.x/5.1 (python3-vt), the symx forking engine, 
                'reals), sizes beyond the stated bounds, GPU, complex dtypes. ')
 
 CHECKS = {
+ 'C08': dict(
+    text='Every law is an SMT validity query over tagged symbolic carrier elements (finite, zero and infinite at once) evaluated through the real '
+         'Semiring/PatternedTensor code on the z3-valued tensor model; star is decided least with a Knaster-Tarski query (fresh universally quantified y). '
+         'Right level: laws over a value domain are exactly what a solver can quantify over and tests can only sample.',
+    note='Bounds: operands 0-d/1-d Tensors and all ordered pairs of patterned operands over shapes (2,),(2,2) [thorough +(3,),(2,3)] x defaults {zero,one,inf}; vectors of length<=4; naturals<=6. '
+         'Log semiring in exponential representation; exp(-1) and exp(+-FLT_MAX) are boxed uninterpreted constants. NaN is not a carrier element.',
+    technique='SMT validity queries over symbolic execution of the real code (z3, NRA/LRA)', design='5/C08'),
  'C19': dict(
     text='Bounded symbolic execution of the real scc/nonterminal_graph: adjacency bits, insertion order and HRG shape are solver variables; '
          'every path of the real code within the bound is explored (solver-complete partition) and compared with an independent reachability oracle. '
